@@ -1268,13 +1268,23 @@ def off_check_program(steps: list, sel: str, seed: int) -> dict:
     if not idx:
         return {"failures": []}
     models = []
+    # user names: plain, or (odd seeds) the formal parameter names of ONNX operators - a name of the build must never
+    # meet a field key used for a propagated value
+    keys_in = ["A", "B", "X", "input", "data", "shape", "axes", "indices", "x", "condition", "target_type", "pads", "split", "K", "starts", "ends"]
+    keys_out = ["C", "Y", "output", "reshaped", "y", "Z", "reduced", "expanded", "squeezed", "Values", "Indices", "outputs_0", "concat_result", "transposed"]
+    fancy = seed % 2 == 1
+    in_name = lambda k, i: keys_in[k] if fancy and k < len(keys_in) else f"a{i}"  # noqa: E731
+    out_name = lambda k, i: keys_out[k] if fancy and k < len(keys_out) else f"v{i}"  # noqa: E731
     for r in (on, off):
-        args = {f"a{i}": v for i, v in enumerate(r["vars"]) if _is_arg(v)}
+        args = {in_name(k, i): v for k, (i, v) in enumerate((i, v) for i, v in enumerate(r["vars"]) if _is_arg(v))}
         try:
-            models.append(spox.build(args, {f"v{i}": r["vars"][i] for i in idx}))
+            models.append(spox.build(args, {out_name(k, i): r["vars"][i] for k, i in enumerate(idx)}))
         except Exception as e:  # noqa: BLE001
             which = "on" if r is on else "off"
             if which == "off" and len(models) == 1:
+                if "does not specify the shape" in str(e) or "not concrete" in str(e):
+                    # fewer types are known without propagated values and `build` insists on known ranks: no model to compare
+                    return {"failures": [], "infra": f"builds only with propagation on: {str(e)[:120]}"}
                 return {"failures": [(f"off-build-fails:{type(e).__name__}", f"build fails only with propagation off: {str(e)[:150]}")]}
             return {"failures": [], "infra": f"build failed ({which}) {type(e).__name__}: {str(e)[:150]}"}
     m_on, m_off = models
